@@ -383,6 +383,10 @@ def replay_c08_pow(args):
                 if kind == "FQ":
                     got = (K(3) ** n).n
                     exp = pow(3, n, p)
+                    for base in (0, 1, p - 1):
+                        for nn in (n, n * (p - 1), (p - 1) * 2, p, p + 1):
+                            if (K(base) ** nn).n != pow(base, nn, p):
+                                bad.append((curve, "base", base, "exponent bits", nn.bit_length()))
                 else:
                     deg = 12 if kind == "FQ12" else 2
                     x = K([3, 1] + [0] * (deg - 2))
@@ -1249,9 +1253,14 @@ def replay_bls_total(args):
         S = getattr(bls, sname)
         good_sig = S.Sign(42, msg)
         calls = []
-        for nm, k in keys[:14]:
+        sel = [kk for kk in keys if kk[0] in ("identity", "leading zero byte", "47 bytes", "x=q", "flags 0") or kk[0].startswith("on curve")] + keys[:6]
+        sig2 = S.Aggregate([S.Sign(42, msg), S.Sign(43, b"n")])
+        pk43 = S.SkToPk(43)
+        for nm, k in sel:
             calls.append(("Verify key " + nm, lambda k=k: S.Verify(k, msg, good_sig)))
-            calls.append(("AggregateVerify key " + nm, lambda k=k: S.AggregateVerify([pk, k], [msg, b"n"], good_sig)))
+            calls.append(("AggregateVerify last key " + nm, lambda k=k: S.AggregateVerify([pk, k], [msg, b"n"], good_sig)))
+            calls.append(("AggregateVerify first key " + nm, lambda k=k: S.AggregateVerify([k, pk43], [msg, b"n"], S.Sign(43, b"n"))))
+            calls.append(("AggregateVerify middle key " + nm, lambda k=k: S.AggregateVerify([pk, k, pk43], [msg, b"x", b"n"], sig2)))
         for nm, s_ in sigs:
             calls.append(("Verify sig " + nm, lambda s_=s_: S.Verify(pk, msg, s_)))
             calls.append(("AggregateVerify sig " + nm, lambda s_=s_: S.AggregateVerify([pk], [msg], s_)))
@@ -1344,3 +1353,88 @@ def replay_c15_h2f(args):
             if got != exp:
                 bad.append(("FQ2", count))
     return (len(bad) > 0), "c15_h2f: %d mismatches %s" % (len(bad), bad[:3])
+
+
+
+def replay_c08_fq2_modulus(args):
+    """FQ2 instantiated with quadratic moduli that have a linear term (over small primes, exhaustively, and the bn128 prime)."""
+    from py_ecc.fields import field_elements as refM, optimized_field_elements as optM
+    M = refM if args["impl"] == "ref" else optM
+    bad = []
+    big = 21888242871839275222246405745257275088696311157297823662689037894645226208583
+    cases = []
+    for p in (3, 5, 7, 11):
+        for m1 in range(p):
+            for m0 in range(p):
+                if all((x * x + m1 * x + m0) % p for x in range(p)):      # irreducible
+                    cases.append((p, m0, m1))
+    cases = cases[:40] + [(big, 5, 3), (big, 1, 0)]
+    pts = args.get("point") or {}
+    if pts:
+        cases.append((big, int(pts.get("m0", 1)) % big, int(pts.get("m1", 1)) % big))
+    rng = random.Random(4)
+    for p, m0, m1 in cases:
+        class T(M.FQ2):
+            field_modulus = p
+            FQ2_MODULUS_COEFFS = (m0, m1)
+        elems = [(a, b) for a in range(min(p, 5)) for b in range(min(p, 5))] if p < 100 else [(rng.randrange(p), rng.randrange(p)) for _ in range(3)] + [(0, 5), (7, 0)]
+        for a in elems:
+            if not any(a):
+                continue
+            try:
+                x = T(list(a))
+                pr = _ints(x * x.inv())
+                ex = _model_mul(list(a), _ints(x.inv()), [m0, m1], p)
+                if pr != [1, 0] or ex != [1, 0]:
+                    bad.append((p, m0, m1, a))
+            except Exception as e:
+                bad.append((repr(e)[:60], p, m0, m1, a))
+    return (len(bad) > 0), "c08_fq2_modulus %s: %d failures %s" % (args["impl"], len(bad), str(bad[:3])[:200])
+
+
+
+def replay_c11_bytes_decode(args):
+    """real byte-level decoders against the independent format oracle on the model string and on structured variants."""
+    from py_ecc.bls import g2_primitives as g
+    from py_ecc.bls import G2Basic as S
+    q = _Q381
+    which = args["which"]
+    bad = []
+    if which == "pubkey_to_G1":
+        pk = S.SkToPk(7)
+        cands = [pk, bytes([0xC0]) + bytes(47), bytes([0xC0]) + bytes(46) + b"\x01", bytes([0xC0, 0x11]) + bytes(46), bytes([0xE0]) + bytes(47),
+                 bytes([pk[0] ^ 0x20]) + pk[1:], bytes([pk[0] & 0x7F]) + pk[1:]]
+        if args.get("bytes"):
+            cands.insert(0, bytes.fromhex(args["bytes"]))
+        for b in cands:
+            exp = zcash_decode_g1(int.from_bytes(b, "big"))
+            try:
+                pt = g.pubkey_to_G1(b)
+                got = ("inf",) if int(pt[2]) == 0 else ("pt", int(pt[0]) * pow(int(pt[2]), -1, q) % q, int(pt[1]) * pow(int(pt[2]), -1, q) % q)
+            except ValueError:
+                got = ("reject",)
+            except Exception as e:
+                got = ("exc", repr(e)[:40])
+            if got[0] != exp[0] or (got[0] == "pt" and got != exp):
+                bad.append((b.hex()[:20], got[:1], exp[:1]))
+    else:
+        sig = S.Sign(7, b"m")
+        cands = [sig, bytes([0xC0]) + bytes(95)]
+        for bit in (0x80, 0x40, 0x20):
+            cands.append(sig[:48] + bytes([sig[48] | bit]) + sig[49:])
+            cands.append(bytes([sig[0] ^ bit]) + sig[1:])
+        cands.append(bytes([0xC0]) + bytes(94) + b"\x01")
+        if args.get("bytes"):
+            cands.insert(0, bytes.fromhex(args["bytes"]))
+        for b in cands:
+            exp = zcash_decode_g2(int.from_bytes(b[:48], "big"), int.from_bytes(b[48:], "big"))
+            try:
+                pt = g.signature_to_G2(b)
+                got = ("inf",) if [int(c) for c in pt[2].coeffs] == [0, 0] else ("pt",)
+            except ValueError:
+                got = ("reject",)
+            except Exception as e:
+                got = ("exc", repr(e)[:40])
+            if got[0] != exp[0]:
+                bad.append((b.hex()[:16], b.hex()[96:104], got[:1], exp[:1]))
+    return (len(bad) > 0), "c11_bytes_decode %s: %d mismatches %s" % (which, len(bad), str(bad[:3])[:300])
